@@ -43,7 +43,7 @@ REQUIRED = {
 
 
 def run(ctx):
-    for fn in (r1_shortcut, r2_flag_table, r3_symmetry, r4_regex_facts, r6_verdict_sources, r7_regex_call_shape, r8_wildcard_bounds, r9_quote_removal, r10_comparison_does_not_write_state, r11_run_state_is_forwarded, r12_got_want_roles):
+    for fn in (r1_shortcut, r2_flag_table, r3_symmetry, r4_regex_facts, r6_verdict_sources, r7_regex_call_shape, r8_wildcard_bounds, r9_quote_removal, r10_comparison_does_not_write_state, r11_run_state_is_forwarded, r12_got_want_roles, r4c_ansi_sequences):
         ctx.rep.rule(fn, ctx)
 
 
@@ -889,12 +889,43 @@ def r12_got_want_roles(ctx, rule='C05.R12'):
     rep.floor(rule, 'sided arguments at checker call sites', n, 12)
 
 
+def r4c_ansi_sequences(ctx):
+    """REGEX-FACT (finite samples, the pattern is folded from the source and applied to constant texts -- nothing of the package runs):
+    colour codes are removed from the got text before it is compared.  The pattern(s) of utils.strip_ansi must take out every CSI sequence,
+    also the ones without parameter bytes (`ESC[m` reset, `ESC[K` erase line), and nothing else."""
+    import re as _re
+    from .common import fold_text, folded_flags
+    rep = ctx.rep
+    f = ctx.func('xdoctest.utils.util_str.strip_ansi')
+    pats = []
+    for c in walk_scope(f.node):
+        if isinstance(c, ast.Call) and isinstance(c.func, ast.Attribute) and is_name(c.func.value, 're') and c.func.attr == 'compile' and c.args:
+            pats.append((c, fold_text(ctx, f, c.args[0]), folded_flags(ctx, f, c, 1)))
+        elif isinstance(c, ast.Call) and isinstance(c.func, ast.Attribute) and is_name(c.func.value, 're') and c.func.attr == 'sub' and len(c.args) >= 3:
+            pats.append((c, fold_text(ctx, f, c.args[0]), folded_flags(ctx, f, c, 4)))
+    rep.floor('C05.R4c', 'patterns applied by strip_ansi', len(pats), 1)
+    E = '\x1b'
+    samples = [(E + '[31mred' + E + '[0m', 'red'), (E + '[0;35mX' + E + '[m', 'X'), (E + '[1;32;40mbold' + E + '[K', 'bold'), ('plain [31m text', 'plain [31m text'),
+               ('a' + E + '[mb', 'ab'), ('\x9b31mz', 'z'), ('no codes [x] {y}', 'no codes [x] {y}')]
+    bad = []
+    for text, want in samples:
+        out = text
+        for (_, pat, fl) in pats:
+            out = _re.sub(pat, '', out, flags=fl)
+        if out != want:
+            bad.append((text, out))
+    rep.ob('C05.R4c', ctx.loc(f, pats[0][0]), 'strip_ansi patterns %s' % [p_ for (_, p_, _f) in pats], not bad,
+           'every sample escape sequence (with and without parameter bytes) is removed and plain text is kept (7 samples)' if not bad else
+           'the ANSI pattern leaves or eats text on %s: a got that differs from the want only by such a colour code no longer matches' % bad, anchor=f.qualname)
+
+
 # ---------------------------------------------------------------------------
 from ..selftest import fire, silent      # noqa: E402
 
 CK = 'xdoctest/checker.py'
 US = 'xdoctest/utils/util_str.py'
 VARIANTS = [
+    fire('ansi-pattern-needs-a-parameter-byte', 'C05.R4c', ('xdoctest/utils/util_str.py', "(\\x9B|\\x1B\\[)[0-?]*[ -/]*[@-~]", "(\\x9B|\\x1B\\[)[0-?]+[ -/]*[@-~]")),
     fire('repr-fallback-swaps-sides', 'C05.R12', (CK, "                flag = check_output(got, want, runstate)\n", "                flag = check_output(want, got, runstate)\n")),
     fire('ellipsis-matcher-sides-swapped', 'C05.R12', (CK, "        if _ellipsis_match(got, want):\n", "        if _ellipsis_match(want, got):\n")),
     fire('repr-fallback-compares-under-default-state', 'C05.R11', (CK, "                flag = check_output(got, want, runstate)\n", "                flag = check_output(got, want)\n")),
